@@ -1,6 +1,7 @@
 package h
 
 import (
+	"context"
 	"errors"
 	"github.com/truora/minidyn/interpreter"
 	"sort"
@@ -13,8 +14,13 @@ import (
 	mtypes "github.com/truora/minidyn/types"
 )
 
+// bgv1 is the context handed to the WithContext variants of the SDK v1 client: the harness calls those (they wrap the plain
+// methods), the caller-memory probes of alias.go call the plain ones, so both entry points are exercised.
+var bgv1 = context.Background()
+
 // V1 drives aws-v1/client.
 type V1 struct {
+	hangState
 	cs map[string]*v1c.Client
 }
 
@@ -23,6 +29,7 @@ func (b *V1) Name() string { return "v1" }
 
 // Reset creates fresh clients.
 func (b *V1) Reset() {
+	b.resetHang()
 	b.cs = map[string]*v1c.Client{}
 	for _, id := range ClientIDs {
 		b.cs[id] = v1c.NewClient()
@@ -158,18 +165,18 @@ func v1Desc(td *dynamodb.TableDescription) Desc {
 
 // AddTable uses the library's helper.
 func (b *V1) AddTable(c, t, hash, rng string) *Resp {
-	return guard(func() *Resp { return b.errResp(v1c.AddTable(b.cs[c], t, hash, rng)) })
+	return b.guard(func() *Resp { return b.errResp(v1c.AddTable(b.cs[c], t, hash, rng)) })
 }
 
 // AddIndex uses the library's helper.
 func (b *V1) AddIndex(c, t, index, hash, rng string) *Resp {
-	return guard(func() *Resp { return b.errResp(v1c.AddIndex(b.cs[c], t, index, hash, rng)) })
+	return b.guard(func() *Resp { return b.errResp(v1c.AddIndex(b.cs[c], t, index, hash, rng)) })
 }
 
 // DeleteIndex issues UpdateTable with a Delete action.
 func (b *V1) DeleteIndex(c, t, index string) *Resp {
-	return guard(func() *Resp {
-		_, err := b.cs[c].UpdateTable(&dynamodb.UpdateTableInput{TableName: aws.String(t),
+	return b.guard(func() *Resp {
+		_, err := b.cs[c].UpdateTableWithContext(bgv1, &dynamodb.UpdateTableInput{TableName: aws.String(t),
 			GlobalSecondaryIndexUpdates: []*dynamodb.GlobalSecondaryIndexUpdate{{Delete: &dynamodb.DeleteGlobalSecondaryIndexAction{IndexName: aws.String(index)}}}})
 		return b.errResp(err)
 	})
@@ -177,7 +184,7 @@ func (b *V1) DeleteIndex(c, t, index string) *Resp {
 
 // CreateTable issues the full request.
 func (b *V1) CreateTable(c string, ev *Event) *Resp {
-	return guard(func() *Resp {
+	return b.guard(func() *Resp {
 		in := &dynamodb.CreateTableInput{TableName: aws.String(ev.T)}
 		if ev.Billing != "" {
 			in.BillingMode = aws.String(ev.Billing)
@@ -214,7 +221,7 @@ func (b *V1) CreateTable(c string, ev *Event) *Resp {
 			in.LocalSecondaryIndexes = append(in.LocalSecondaryIndexes, &dynamodb.LocalSecondaryIndex{IndexName: aws.String(g.Name),
 				KeySchema: v1KeySchema(g.Hash, r), Projection: &dynamodb.Projection{ProjectionType: aws.String(g.Proj)}})
 		}
-		out, err := b.cs[c].CreateTable(in)
+		out, err := b.cs[c].CreateTableWithContext(bgv1, in)
 		r := b.errResp(err)
 		if err == nil && out != nil {
 			r.Desc = v1Desc(out.TableDescription)
@@ -225,16 +232,16 @@ func (b *V1) CreateTable(c string, ev *Event) *Resp {
 
 // DeleteTable deletes a table.
 func (b *V1) DeleteTable(c, t string) *Resp {
-	return guard(func() *Resp {
-		_, err := b.cs[c].DeleteTable(&dynamodb.DeleteTableInput{TableName: aws.String(t)})
+	return b.guard(func() *Resp {
+		_, err := b.cs[c].DeleteTableWithContext(bgv1, &dynamodb.DeleteTableInput{TableName: aws.String(t)})
 		return b.errResp(err)
 	})
 }
 
 // Describe describes a table.
 func (b *V1) Describe(c, t string) *Resp {
-	return guard(func() *Resp {
-		out, err := b.cs[c].DescribeTable(&dynamodb.DescribeTableInput{TableName: aws.String(t)})
+	return b.guard(func() *Resp {
+		out, err := b.cs[c].DescribeTableWithContext(bgv1, &dynamodb.DescribeTableInput{TableName: aws.String(t)})
 		r := b.errResp(err)
 		if err == nil && out != nil {
 			r.Desc = v1Desc(out.Table)
@@ -245,7 +252,7 @@ func (b *V1) Describe(c, t string) *Resp {
 
 // Clear uses the library's helper.
 func (b *V1) Clear(c, t string) *Resp {
-	return guard(func() *Resp { return b.errResp(v1c.ClearTable(b.cs[c], t)) })
+	return b.guard(func() *Resp { return b.errResp(v1c.ClearTable(b.cs[c], t)) })
 }
 
 func v1Names(m map[string]string) map[string]*string {
@@ -268,8 +275,8 @@ func v1Values(it Item) map[string]*dynamodb.AttributeValue {
 
 // Put issues PutItem.
 func (b *V1) Put(c, t string, item Item, w WriteArgs) *Resp {
-	return guard(func() *Resp {
-		out, err := b.cs[c].PutItem(&dynamodb.PutItemInput{TableName: aws.String(t), Item: ItemToV1(item), ConditionExpression: w.Cond,
+	return b.guard(func() *Resp {
+		out, err := b.cs[c].PutItemWithContext(bgv1, &dynamodb.PutItemInput{TableName: aws.String(t), Item: ItemToV1(item), ConditionExpression: w.Cond,
 			ExpressionAttributeNames: v1Names(w.Names), ExpressionAttributeValues: v1Values(w.Values)})
 		r := b.errResp(err)
 		if err == nil && out != nil {
@@ -281,8 +288,8 @@ func (b *V1) Put(c, t string, item Item, w WriteArgs) *Resp {
 
 // Get issues GetItem.
 func (b *V1) Get(c, t string, key Item) *Resp {
-	return guard(func() *Resp {
-		out, err := b.cs[c].GetItem(&dynamodb.GetItemInput{TableName: aws.String(t), Key: ItemToV1(key)})
+	return b.guard(func() *Resp {
+		out, err := b.cs[c].GetItemWithContext(bgv1, &dynamodb.GetItemInput{TableName: aws.String(t), Key: ItemToV1(key)})
 		r := b.errResp(err)
 		if err == nil && out != nil {
 			r.Item = optOf(ItemFromV1(out.Item))
@@ -293,8 +300,8 @@ func (b *V1) Get(c, t string, key Item) *Resp {
 
 // GetProj issues GetItem with a ProjectionExpression.
 func (b *V1) GetProj(c, t string, key Item, proj []string) *Resp {
-	return guard(func() *Resp {
-		out, err := b.cs[c].GetItem(&dynamodb.GetItemInput{TableName: aws.String(t), Key: ItemToV1(key), ProjectionExpression: aws.String(strings.Join(proj, ", "))})
+	return b.guard(func() *Resp {
+		out, err := b.cs[c].GetItemWithContext(bgv1, &dynamodb.GetItemInput{TableName: aws.String(t), Key: ItemToV1(key), ProjectionExpression: aws.String(strings.Join(proj, ", "))})
 		r := b.errResp(err)
 		if err == nil && out != nil {
 			r.Item = optOf(ItemFromV1(out.Item))
@@ -305,8 +312,8 @@ func (b *V1) GetProj(c, t string, key Item, proj []string) *Resp {
 
 // Update issues UpdateItem with ReturnValues = ALL_NEW.
 func (b *V1) Update(c, t string, key Item, upd string, w WriteArgs) *Resp {
-	return guard(func() *Resp {
-		out, err := b.cs[c].UpdateItem(&dynamodb.UpdateItemInput{TableName: aws.String(t), Key: ItemToV1(key), UpdateExpression: aws.String(upd),
+	return b.guard(func() *Resp {
+		out, err := b.cs[c].UpdateItemWithContext(bgv1, &dynamodb.UpdateItemInput{TableName: aws.String(t), Key: ItemToV1(key), UpdateExpression: aws.String(upd),
 			ConditionExpression: w.Cond, ExpressionAttributeNames: v1Names(w.Names), ExpressionAttributeValues: v1Values(w.Values),
 			ReturnValues: aws.String("ALL_NEW")})
 		r := b.errResp(err)
@@ -319,13 +326,13 @@ func (b *V1) Update(c, t string, key Item, upd string, w WriteArgs) *Resp {
 
 // Delete issues DeleteItem.
 func (b *V1) Delete(c, t string, key Item, w WriteArgs) *Resp {
-	return guard(func() *Resp {
+	return b.guard(func() *Resp {
 		in := &dynamodb.DeleteItemInput{TableName: aws.String(t), Key: ItemToV1(key), ConditionExpression: w.Cond,
 			ExpressionAttributeNames: v1Names(w.Names), ExpressionAttributeValues: v1Values(w.Values)}
 		if w.Retold {
 			in.ReturnValues = aws.String("ALL_OLD")
 		}
-		out, err := b.cs[c].DeleteItem(in)
+		out, err := b.cs[c].DeleteItemWithContext(bgv1, in)
 		r := b.errResp(err)
 		if err == nil && out != nil {
 			r.Attrs = optOf(ItemFromV1(out.Attributes))
@@ -344,7 +351,7 @@ func v1Items(in []map[string]*dynamodb.AttributeValue) []Item {
 
 // Read issues Query or Scan.
 func (b *V1) Read(c string, q *ReadArgs) *Resp {
-	return guard(func() *Resp {
+	return b.guard(func() *Resp {
 		var lim *int64
 		if q.Limit != nil {
 			lim = aws.Int64(int64(*q.Limit))
@@ -354,7 +361,7 @@ func (b *V1) Read(c string, q *ReadArgs) *Resp {
 			esk = ItemToV1(q.Esk)
 		}
 		if q.Kind == "query" {
-			out, err := b.cs[c].Query(&dynamodb.QueryInput{TableName: aws.String(q.T), IndexName: q.Index,
+			out, err := b.cs[c].QueryWithContext(bgv1, &dynamodb.QueryInput{TableName: aws.String(q.T), IndexName: q.Index,
 				KeyConditionExpression: aws.String(q.Kc), FilterExpression: q.Filter, ExpressionAttributeNames: v1Names(q.Names),
 				ExpressionAttributeValues: v1Values(q.Values), ScanIndexForward: q.Fwd, Limit: lim, ExclusiveStartKey: esk})
 			r := b.errResp(err)
@@ -365,7 +372,7 @@ func (b *V1) Read(c string, q *ReadArgs) *Resp {
 			}
 			return r
 		}
-		out, err := b.cs[c].Scan(&dynamodb.ScanInput{TableName: aws.String(q.T), IndexName: q.Index,
+		out, err := b.cs[c].ScanWithContext(bgv1, &dynamodb.ScanInput{TableName: aws.String(q.T), IndexName: q.Index,
 			FilterExpression: q.Filter, ExpressionAttributeNames: v1Names(q.Names),
 			ExpressionAttributeValues: v1Values(q.Values), Limit: lim, ExclusiveStartKey: esk})
 		r := b.errResp(err)
@@ -380,7 +387,7 @@ func (b *V1) Read(c string, q *ReadArgs) *Resp {
 
 // BatchWrite issues BatchWriteItem.
 func (b *V1) BatchWrite(c string, reqs []WriteReq) *Resp {
-	return guard(func() *Resp {
+	return b.guard(func() *Resp {
 		in := &dynamodb.BatchWriteItemInput{RequestItems: map[string][]*dynamodb.WriteRequest{}}
 		for _, rq := range reqs {
 			wr := &dynamodb.WriteRequest{}
@@ -392,7 +399,7 @@ func (b *V1) BatchWrite(c string, reqs []WriteReq) *Resp {
 			}
 			in.RequestItems[rq.T] = append(in.RequestItems[rq.T], wr)
 		}
-		out, err := b.cs[c].BatchWriteItem(in)
+		out, err := b.cs[c].BatchWriteItemWithContext(bgv1, in)
 		r := b.errResp(err)
 		if err == nil && out != nil {
 			tables := make([]string, 0, len(out.UnprocessedItems))
@@ -419,7 +426,7 @@ func (b *V1) BatchWrite(c string, reqs []WriteReq) *Resp {
 
 // BatchGet issues BatchGetItem.
 func (b *V1) BatchGet(c string, reqs []GetReq) *Resp {
-	return guard(func() *Resp {
+	return b.guard(func() *Resp {
 		in := &dynamodb.BatchGetItemInput{RequestItems: map[string]*dynamodb.KeysAndAttributes{}}
 		for _, rq := range reqs {
 			ka := in.RequestItems[rq.T]
@@ -431,7 +438,7 @@ func (b *V1) BatchGet(c string, reqs []GetReq) *Resp {
 				ka.Keys = append(ka.Keys, ItemToV1(k))
 			}
 		}
-		out, err := b.cs[c].BatchGetItem(in)
+		out, err := b.cs[c].BatchGetItemWithContext(bgv1, in)
 		r := b.errResp(err)
 		if err == nil && out != nil {
 			tables := make([]string, 0)
@@ -459,15 +466,15 @@ func (b *V1) BatchGet(c string, reqs []GetReq) *Resp {
 
 // Transact issues an empty TransactWriteItems.
 func (b *V1) Transact(c string) *Resp {
-	return guard(func() *Resp {
-		_, err := b.cs[c].TransactWriteItems(&dynamodb.TransactWriteItemsInput{})
+	return b.guard(func() *Resp {
+		_, err := b.cs[c].TransactWriteItemsWithContext(bgv1, &dynamodb.TransactWriteItemsInput{})
 		return b.errResp(err)
 	})
 }
 
 // Fail switches the emulated failure mode.
 func (b *V1) Fail(c, mode string) *Resp {
-	return guard(func() *Resp {
+	return b.guard(func() *Resp {
 		switch mode {
 		case "none":
 			v1c.EmulateFailure(b.cs[c], v1c.FailureConditionNone)
